@@ -191,7 +191,7 @@ impl LangInterpreter for Italian {
                 }
             }
             "milioni" if b.is_range_free(6, 8) => {
-                if b.is_empty() || b.peek(2) == b"1" {
+                if b.is_null() || b.peek(2) == b"1" {
                     Err(Error::NaN)
                 } else {
                     b.shift(6)
@@ -212,7 +212,7 @@ impl LangInterpreter for Italian {
                 }
             }
             "miliardi" => {
-                if b.is_empty() || b.peek(2) == b"1" {
+                if b.is_null() || b.peek(2) == b"1" {
                     Err(Error::NaN)
                 } else {
                     b.shift(9)
@@ -233,7 +233,7 @@ impl LangInterpreter for Italian {
                 }
             }
             "bilioni" => {
-                if b.is_empty() || b.peek(2) == b"1" {
+                if b.is_null() || b.peek(2) == b"1" {
                     Err(Error::NaN)
                 } else {
                     b.shift(12)
